@@ -260,9 +260,24 @@ def _switch_key(fn, bb):
         return None
     loc = op[1][0]
     ds = fn.defs().get(loc, [])
+    if len(ds) == 1 and ds[0][2] == "call" and (fn.locals[loc][0] == "bool"):
+        return ("bool", loc)            # `let ok = f(..); if ok {..} .. if ok {..}`: two tests of one value
     if len(ds) != 1 or ds[0][2] != "assign":
         return None
     rv = ds[0][3][4]
+    if rv[0] == "use" and rv[1][0] in "cm" and not rv[1][1][1] and fn.locals[loc][0] == "bool":
+        src = rv[1][1][0]
+        hops = 0
+        while hops < 3:
+            d2 = fn.defs().get(src, [])
+            if len(d2) == 1 and d2[0][2] == "assign" and d2[0][3][4][0] == "use" and d2[0][3][4][1][0] in "cm" and not d2[0][3][4][1][1][1]:
+                src = d2[0][3][4][1][1][0]
+                hops += 1
+            else:
+                break
+        if len(fn.defs().get(src, [])) == 1 and src > fn.argc:
+            return ("bool", src)
+        return None
     if rv[0] == "discr":
         pl = rv[1]
         if pl[1]:
